@@ -126,6 +126,19 @@ func decisionTable(start *ssa.BasicBlock, cfg dtConfig) []dtLeaf {
 				}
 			}
 		case *ssa.BinOp:
+			// a comparison of a value computed from the variable by constant arithmetic (c | 0x20,
+			// c - '0', …): evaluated element by element over the (small) current set
+			if _, direct := derive(c.X, cfg, 0); !direct {
+				if _, direct := derive(c.Y, cfg, 0); !direct {
+					fx, _ := derive(c.X, cfg, 0)
+					fy, _ := derive(c.Y, cfg, 0)
+					_, xc := constInt(c.X)
+					_, yc := constInt(c.Y)
+					if (fx != nil || xc) && (fy != nil || yc) && !(xc && yc) && s.Count() <= 70000 {
+						return splitElementwise(c, s, fx, fy)
+					}
+				}
+			}
 			if strip(c.X) == cfg.Var || cfg.Aliases[strip(c.X)] {
 				if kv, ok := constInt(c.Y); ok {
 					if t, f := cmpSplit(c.Op, kv, s, true); t != nil {
@@ -461,4 +474,136 @@ func constBoolTables(p *Program, rel string) tableEval {
 		cache[g] = set
 		return set, true
 	}
+}
+
+// derive: if v is the variable itself (or an alias) the result is (nil, true). If v is computed from
+// the variable by arithmetic with constants, the result is its evaluation function and false.
+// Otherwise (nil, false) with ok… see callers: ok = (f != nil) || direct.
+func derive(v ssa.Value, cfg dtConfig, depth int) (func(int64) int64, bool) {
+	if c, ok := v.(*ssa.Convert); ok {
+		inner, direct := derive(c.X, cfg, depth+1)
+		b, okb := c.Type().Underlying().(*types.Basic)
+		if !okb {
+			return nil, false
+		}
+		var mask int64
+		switch b.Kind() {
+		case types.Uint8:
+			mask = 0xFF
+		case types.Uint16:
+			mask = 0xFFFF
+		case types.Int, types.Int32, types.Int64, types.Uint32, types.Uint, types.Uint64:
+			mask = 0
+		default:
+			return nil, false
+		}
+		if direct {
+			if mask == 0 {
+				return nil, true
+			}
+			return func(x int64) int64 { return x & mask }, false
+		}
+		if inner == nil {
+			return nil, false
+		}
+		if mask == 0 {
+			return inner, false
+		}
+		return func(x int64) int64 { return inner(x) & mask }, false
+	}
+	if v == cfg.Var || cfg.Aliases[v] {
+		return nil, true
+	}
+	if depth > 6 {
+		return nil, false
+	}
+	bo, ok := v.(*ssa.BinOp)
+	if !ok {
+		return nil, false
+	}
+	var inner func(int64) int64
+	var k int64
+	varLeft := true
+	if kv, ok := constInt(bo.Y); ok {
+		f, direct := derive(bo.X, cfg, depth+1)
+		if !direct && f == nil {
+			return nil, false
+		}
+		inner, k = f, kv
+	} else if kv, ok := constInt(bo.X); ok {
+		f, direct := derive(bo.Y, cfg, depth+1)
+		if !direct && f == nil {
+			return nil, false
+		}
+		inner, k, varLeft = f, kv, false
+	} else {
+		return nil, false
+	}
+	if inner == nil {
+		inner = func(x int64) int64 { return x }
+	}
+	wrap := func(x int64) int64 { return x }
+	if b, ok := bo.Type().Underlying().(*types.Basic); ok && b.Kind() == types.Uint8 {
+		wrap = func(x int64) int64 { return x & 0xFF }
+	}
+	var op func(a, b int64) int64
+	switch bo.Op {
+	case token.OR:
+		op = func(a, b int64) int64 { return a | b }
+	case token.AND:
+		op = func(a, b int64) int64 { return a & b }
+	case token.XOR:
+		op = func(a, b int64) int64 { return a ^ b }
+	case token.ADD:
+		op = func(a, b int64) int64 { return a + b }
+	case token.SUB:
+		op = func(a, b int64) int64 { return a - b }
+	case token.AND_NOT:
+		op = func(a, b int64) int64 { return a &^ b }
+	default:
+		return nil, false
+	}
+	if varLeft {
+		return func(x int64) int64 { return wrap(op(inner(x), k)) }, false
+	}
+	return func(x int64) int64 { return wrap(op(k, inner(x))) }, false
+}
+
+// splitElementwise evaluates a comparison whose operands are derived values or constants for every
+// element of s.
+func splitElementwise(c *ssa.BinOp, s *relang.Set, fx, fy func(int64) int64) (*relang.Set, *relang.Set, bool) {
+	val := func(f func(int64) int64, v ssa.Value, e int64) int64 {
+		if k, ok := constInt(v); ok {
+			return k
+		}
+		return f(e)
+	}
+	var ts []int32
+	for i := 0; i+1 < len(s.R); i += 2 {
+		for e := s.R[i]; e <= s.R[i+1]; e++ {
+			a, b := val(fx, c.X, int64(e)), val(fy, c.Y, int64(e))
+			var r bool
+			switch c.Op {
+			case token.EQL:
+				r = a == b
+			case token.NEQ:
+				r = a != b
+			case token.LSS:
+				r = a < b
+			case token.LEQ:
+				r = a <= b
+			case token.GTR:
+				r = a > b
+			case token.GEQ:
+				r = a >= b
+			default:
+				return nil, nil, false
+			}
+			if r {
+				ts = append(ts, e, e)
+			}
+		}
+	}
+	t := relang.NewSet(ts...)
+	return t, s.Minus(t), true
 }
